@@ -213,6 +213,8 @@ Definition mismatches (cs : list ocase) : list (nat * (nat * nat)) :=
     21 a step panicked;
     22 after a successful update the client type changed, the TSS key is not the header's, or the header's
        consensus state is not stored at the header's height;
+    24 an ETH proposal whose consensus state root is not (as a 32-byte hash) the state root of its header succeeded
+       (the installed header is indexed under ITS root: pruning that consensus state later fails and bricks the client);
     23 (defined at the end) an installed, unexpired client: the proof gate at the installed height did not open
        once the delay had passed, or opened before, or the installed consensus state / its metadata vanished. *)
 Definition cstore_eqb (a b : cstore) : bool :=
@@ -245,7 +247,7 @@ Definition metadata_ok (tnow : N) (c : client_state) (s : cstore) : bool :=
       end
   | ClEth hd _ _ _ =>
       let n := snd (eh_height hd) in
-      has_key (KHIdx (eh_hash hd) n) (VHeader hd) s && has_key (KRootMain (eh_root hd) n) (VRefHIdx (eh_hash hd) n) s
+      has_key (KHIdx (eh_hash hd) n) (VHeader hd) s && has_key (KRootMain (hash32 (eh_root hd)) n) (VRefHIdx (eh_hash hd) n) s
   | ClTss _ _ => true
   end.
 
@@ -255,7 +257,7 @@ Definition installed_keys (c : client_state) : list ckey :=
   match c with
   | ClTm l _ _ _ _ => [KCons l; KPTime l; KIter l]
   | ClBsc hd _ _ _ _ => [KCons (eh_height hd); KSigner (eh_height hd); KPending]
-  | ClEth hd _ _ _ => [KCons (eh_height hd); KHIdx (eh_hash hd) (snd (eh_height hd)); KRootMain (eh_root hd) (snd (eh_height hd))]
+  | ClEth hd _ _ _ => [KCons (eh_height hd); KHIdx (eh_hash hd) (snd (eh_height hd)); KRootMain (hash32 (eh_root hd)) (snd (eh_height hd))]
   | ClTss _ _ => []
   end.
 
@@ -290,15 +292,16 @@ Definition usable_probe (c : ocase) (p : proposal) (pr : oprobe) : bool :=
       | ClTm _ _ _ _ _ =>
           if bytes_eqb (cs_root (p_cons p)) (oc_tmfx c) then Nat.eqb g 0 || Nat.eqb g 5 else Nat.eqb g 6 || Nat.eqb g 5
       | _ =>
-          if bytes_eqb (cs_root (p_cons p)) (oc_evmfx c) then Nat.eqb g 0 || Nat.eqb g 1 else Nat.eqb g 6 || Nat.eqb g 1
+          if bytes_eqb (hash32 (cs_root (p_cons p))) (hash32 (oc_evmfx c)) then Nat.eqb g 0 || Nat.eqb g 1 else Nat.eqb g 6 || Nat.eqb g 1
       end
   end.
 
-(** the part of the monitor that looks at the stores only (kinds 19, 15, 16, 17); [kind]: 0 create, 1 upgrade, 2 toggle *)
+(** the part of the monitor that looks at the stores only (kinds 19, 24, 15, 16, 17); [kind]: 0 create, 1 upgrade, 2 toggle *)
 Definition mon_installed_core (kind : nat) (p : proposal) (post : state) : list nat :=
   let s := store_of post (p_name p) in
   let cl := p_client p in
   (if ctype_eqb (cs_type (p_cons p)) (type_of cl) then [] else [19%nat]) ++
+  (if roots_agree head_cfg p then [] else [24%nat]) ++
   (if has_key KClient (VClient cl) s &&
       (if ctype_eqb (type_of cl) TSS then match sget (KCons (0, 0)) s with None => true | Some _ => false end
        else has_key (KCons (latest_of cl)) (VCons (p_cons p)) s)
@@ -343,13 +346,15 @@ Definition update_must_succeed (pre : state) (pre_probes : list oprobe) (name : 
       end &&
       (if snd (eh_height hd) mod epoch =? 0 then match eh_vals hd with Some _ => true | None => false end else true) &&
       cons_all_of_type BSC s
-  | Some (ClEth cur _ _ _), HEvm ETH hd hv =>
+  | Some (ClEth cur _ trusting _), HEvm ETH hd hv =>
       hv && (snd (eh_height cur) + 1 =? snd (eh_height hd)) && bytes_eqb (eh_hash cur) (eh_parent hd) &&
+      (* a header of the client's revision, not older than the trusting period (1e12297, 072bc15) *)
+      (fst (eh_height hd) =? fst (eh_height cur)) && negb (evm_expired (eh_time hd) trusting (now pre)) &&
       has_key (KHIdx (eh_hash cur) (snd (eh_height cur))) (VHeader cur) s && (eh_time cur <? eh_time hd) &&
       cons_all_of_type ETH s &&
       (* every consensus state has its root-main entry, so pruning cannot fail *)
       forallb (fun kv => match kv with
-                         | (KCons hh, VCons cs) => match sget (KRootMain (cs_root cs) (snd hh)) s with Some (VRefHIdx _ _) => true | _ => false end
+                         | (KCons hh, VCons cs) => match sget (KRootMain (hash32 (cs_root cs)) (snd hh)) s with Some (VRefHIdx _ _) => true | _ => false end
                          | _ => true end) s
   | _, _ => false
   end.
@@ -468,7 +473,10 @@ Definition later_ok (c : ocase) (post : state) (probes : list oprobe) (e : bytes
       match gate_at h pr with
       | None => true
       | Some g =>
-          let opened := if bytes_eqb (cs_root (p_cons p)) (fx_of c cl) then 0%nat else 6%nat in
+          let opened := match cl with
+                        | ClTm _ _ _ _ _ => if bytes_eqb (cs_root (p_cons p)) (fx_of c cl) then 0%nat else 6%nat
+                        | _ => if bytes_eqb (hash32 (cs_root (p_cons p))) (hash32 (fx_of c cl)) then 0%nat else 6%nat
+                        end in
           match cl with
           | ClTm latest _ _ delay _ =>
               if h_lt latest h then true else
